@@ -35,10 +35,12 @@ def run(ctx):
             for i, line in enumerate(open(part)):
                 if ctx.quick and cfg == "Gen_n2u" and i % 3:
                     continue                      # quick: every third of the systems coupled with the implicit equation
+                if cfg in ("Gen_n3run", "Gen_n3runz") and i % 6:
+                    continue                      # three classes (compiled and run): every sixth system of the enumeration
                 if '"kind":"none"' in line.split('"fault":')[1][:40] or '"kind":"diffOfSum"' in line.split('"fault":')[1][:60]:
                     out.write(line)
     nsys = sum(1 for _ in open(sysscen))
-    strace = ctx.execute("system", sysscen, timeout_s=120)
+    strace = ctx.execute("system", sysscen, timeout_s=120, wall=3000 if ctx.quick else 12000)
     ctx.validate("System", "Trace_System.tla", "Trace_C03.cfg", strace, "system", parallel=12)
     ctx.cov["systems_compiled_and_run"] = nsys
     ctx.cov["evaluations"] = ntrees
